@@ -48,6 +48,7 @@ def run(report, db, tier):
     success_arm(report, db, cg, M, fi, arms)
     disconnect_arm(report, db, cg, M, fi, arms)
     stateless(report, db, cg, M, fi, lr)
+    transport_lookup(report, db, cg, M)
 
 
 def arm_nodes(g, st):
@@ -107,7 +108,41 @@ def encryption_arm(report, db, cg, M, fi, arms):
                          fi.qualname, 'the secret is not bound to a local')
         return None
     sec = sec_t.id
-    report.ok(R, 'secret = generate_shared_secret() inside the arm')
+    # the secret is fresh on every path and never outlives the arm
+    other = []
+    kept = []
+    for s_ in body:
+        for x in ast.walk(s_):
+            if isinstance(x, ast.Assign):
+                for t in x.targets:
+                    if isinstance(t, ast.Name) and t.id == sec and \
+                            x.value is not gen[0]:
+                        other.append(x)
+                    if isinstance(t, (ast.Attribute, ast.Subscript)) and \
+                            isinstance(x.value, ast.Name) and \
+                            x.value.id == sec:
+                        kept.append(x)
+    gnodes = M.cfg_nodes_of(fi, gen[0])
+    tests_ = [n for n in g.reachable_nodes() if n.kind == 'test'
+              and n.ast is st.test]
+    always = bool(gnodes) and bool(tests_) and all(
+        not [c for c in boolfn.path_conditions(g, n)
+             if c[0] is not st.test and 'packet_name' not in
+             ast.unparse(c[0])] for n in gnodes)
+    if other or kept or not always:
+        x = (other or kept or [gen[0]])[0]
+        report.violation(R, 'enc:secret-not-fresh', fi.path, x, fi.qualname,
+                         'the shared secret is not generated afresh on '
+                         'every encryption request (%s): a reconnect on the '
+                         'same object reuses key and IV' % (
+                             'taken from elsewhere: %s' % ast.unparse(
+                                 other[0]) if other else
+                             'stored beyond the arm: %s' % ast.unparse(
+                                 kept[0]) if kept else
+                             'generated only under a condition'))
+    else:
+        report.ok(R, 'secret = generate_shared_secret() on every path of '
+                  'the arm, kept only in a local')
     facts = dict(secret=sec)
     # ---- RSA encryption
     enc = find_calls(body, lambda c: callee_is(c, ENC,
@@ -650,3 +685,47 @@ def stateless(report, db, cg, M, fi, lr):
                              % r.attr)
     else:
         report.ok(R, 'react reads only self.connection')
+
+
+def transport_lookup(report, db, cg, M):
+    R = report.rule('R10.9', 'the transport is looked up per packet: every '
+                    'read uses connection.file_object as it is at that '
+                    'moment, so the cipher wrapper installed by the login '
+                    'reaction applies to the very next frame')
+    rn = M.method(M.thread, '_run')
+    g = cfg_of(rn)
+    n = 0
+    for node in g.reachable_nodes():
+        for c in (node.calls() if node.ast is not None else []):
+            if not any(m.name == 'read_packet'
+                       for m, _, _ in cg.callee_funcs(rn, c)):
+                continue
+            n += 1
+            a = c.args[0] if c.args else None
+            fresh = isinstance(a, ast.Attribute) and \
+                a.attr == 'file_object' and M.is_conn_expr(rn, a.value)
+            if not fresh and isinstance(a, ast.Name):
+                # a local is fine when it is (re)loaded from the connection
+                # inside the same loop iteration, after the previous react
+                loads = [x for x in g.reachable_nodes() if isinstance(
+                    x.ast, ast.Assign) and any(
+                        isinstance(t, ast.Name) and t.id == a.id
+                        for t in x.ast.targets)]
+                inner = node.loops[-1] if node.loops else None
+                fresh = bool(loads) and all(
+                    inner is not None and inner in x.loops and isinstance(
+                        x.ast.value, ast.Attribute)
+                    and x.ast.value.attr == 'file_object' for x in loads)
+            if fresh:
+                report.ok(R, 'read_packet(%s, ...) evaluated per read'
+                          % ast.unparse(a))
+            else:
+                report.violation(R, 'transport:stale-stream', rn.path, c,
+                                 rn.qualname, 'read_packet is given %s, '
+                                 'which is not re-read from the connection '
+                                 'for every packet: after the encryption '
+                                 'response the next frames are still read '
+                                 'from the unwrapped stream'
+                                 % (ast.unparse(a) if a is not None
+                                    else 'nothing'))
+    report.floor('read_packet call sites in _run', n, 1)
